@@ -32,6 +32,10 @@ def grid_cases(quick):
                             pols = ["oldest", "newest", "random"] if W > 1 else ["oldest"]
                             for pol in pols:
                                 cases.append({"n": n, "W": W, "steps": steps, "k": k, "mode": mode, "ext": ext, "pol": pol})
+                        # the restart runs with another worker count (fewer: recorded jobs are surplus; more: an extra fresh pick)
+                        if k >= 1 and (mode == "kill" or not quick):
+                            for W2 in sorted({W - 1, W - 2, W + 1} & set(range(1, n))):
+                                cases.append({"n": n, "W": W, "steps": steps, "k": k, "mode": mode, "ext": steps + W + 2, "pol": "oldest", "W2": W2})
     return cases
 
 
@@ -49,6 +53,8 @@ def run_grid_case(c, seed=3):
         done1 = c["k"]
     seg2 = {"steps": c["ext"], "policy": c["pol"], "policy_seed": seed + 1}
     seg3 = {"steps": c["ext"], "policy": c["pol"], "policy_seed": seed + 2}  # restart of the finished run
+    if c.get("W2"):
+        seg2["workers"] = seg3["workers"] = c["W2"]
     h = simdrv.run_history(spec, [seg1, seg2, seg3], {"C17": 1}, keep=True)
     probs = []
     try:
@@ -115,7 +121,7 @@ def _grid_worker(job):
         probs, res = run_grid_case(c, seed)
         inflight_at_restart = c["mode"] == "kill" and c["W"] >= 2
         rec.case(key=c, nontrivial=inflight_at_restart or (c["ext"] - c["k"] < c["W"] and c["ext"] > c["k"]),
-                 classes=["grid", f"W={c['W']}", "grid:" + c["mode"], "grid:short-extension" if 0 < c["ext"] - c["k"] < c["W"] else "grid:extension>=W"],
+                 classes=["grid", f"W={c['W']}", "grid:" + c["mode"]] + (["grid:restart-with-fewer-workers" if c["W2"] < c["W"] else "grid:restart-with-more-workers"] if c.get("W2") else []) + [ "grid:short-extension" if 0 < c["ext"] - c["k"] < c["W"] else "grid:extension>=W"],
                  sample=c if len(rec.samples) < 2 and inflight_at_restart else None)
         for sig, msg in probs:
             rec.violation(sig, f"{msg}; case={c}", {"part": "grid", "case": c, "seed": seed})
